@@ -29,7 +29,8 @@ def formula_check(res, model: Model, qual: str, ref_src: str, what: str, opaque:
                   int_is_floor: bool = False, selfcls: Optional[str] = None, max_paths: int = 4000):
     """Compare `qual` with the reference.  Equal -> obligation discharged; different -> finding; unreadable ->
     AnalysisError (exit 2, never a violation)."""
-    f = model.func(qual)
+    f = qual if isinstance(qual, FuncInfo) else model.func(qual)
+    qual = f.qualname if isinstance(qual, FuncInfo) else qual
     rf = ref_func(model, f, ref_src)
     try:
         ev1 = Evaluator(model, opaque_funcs=opaque, extern=extern, int_is_floor=int_is_floor, max_paths=max_paths)
@@ -94,7 +95,8 @@ def effects_check(res, model: Model, qual: str, ref_src: str, what: str, effect_
                   selfcls: Optional[str] = None, ordered: bool = False):
     """Ledger identity: on every path, the multiset of effects (wallet/cash primitives called with which canonical
     amounts, stores into position fields, the recorded action) equals the reference's, and so does the result."""
-    f = model.func(qual)
+    f = qual if isinstance(qual, FuncInfo) else model.func(qual)
+    qual = f.qualname if isinstance(qual, FuncInfo) else qual
     rf = ref_func(model, f, ref_src)
     sc = model.cls(selfcls) if selfcls else f.cls
     try:
@@ -141,3 +143,14 @@ def effects_check(res, model: Model, qual: str, ref_src: str, what: str, effect_
         res.find(rule, f.qualname, f"{what}: effects differ from the reference ledger", f.loc(),
                  f"{qual}: {what}: {why[:1200]}", {"target": qual, "what": what, "difference": why[:3000]})
     return ok
+
+
+def nested_func(model: Model, outer_qual: str, name: str) -> FuncInfo:
+    """FuncInfo of a function defined inside another function (closure variables stay symbolic)."""
+    outer = model.func(outer_qual)
+    for n in ast.walk(outer.node):
+        if isinstance(n, ast.FunctionDef) and n.name == name and n is not outer.node:
+            fi = FuncInfo(outer.module, None, n)
+            fi.name = f"{outer.name}.<{name}>"
+            return fi
+    raise AnalysisError(f"nested function {name} not found in {outer_qual}")
